@@ -421,7 +421,7 @@ class Interp:
                 if m is None:
                     break
                 want.append(m)
-                if len(want) > 200:
+                if len(want) > 100000:
                     break
             res, sleeps = self._call(lambda: list(port.iter_pending()))
             if res[0] == 'ok':
